@@ -153,6 +153,19 @@ func c16R3(r *Run, rep *core.Report) {
 						okDom = false
 						rep.Fail("C16.R3", name+" acquire before lookup", r.P.InstrPos(in), "in the load-if-exists mode a lock is taken on a path that has not tried the lock-free lookup first")
 					}
+					return
+				}
+				// a callee that can block (waits for a resize, takes a lock, sleeps) before the lookup was tried
+				if c, ok := in.(ssa.CallInstruction); ok && in != ssa.Instruction(loadCall) {
+					if cal := core.Callee(c); cal != nil && cal != mm.Methods["Load"] {
+						for e := range core.Blocking {
+							if why, has := r.E.Has(cal, e); has && avoid(in) {
+								okDom = false
+								rep.Fail("C16.R3", name+" blocking call before lookup", r.P.InstrPos(in), "in the load-if-exists mode "+fn(cal)+" can block ("+e+": "+why+") on a path that has not tried the lock-free lookup first: the hit path of LoadOrStore / LoadOrCompute would wait for a stalled writer or resize")
+								break
+							}
+						}
+					}
 				}
 			})
 			// (b) the hit edge returns without locking or blocking
@@ -239,6 +252,35 @@ func c16R3(r *Run, rep *core.Report) {
 				})
 			}
 			rep.Check(ok, "C16.R3", fn(wf)+" selects the fast-path mode", r.P.Pos(wf.Pos()), "calls the core in a mode that tries the lock-free lookup", "get-or-create wrapper calls the compute core in a mode without the lock-free lookup")
+			// the wrapper itself (and any wrapper it delegates to) blocks nowhere but inside the core
+			blocked := ""
+			for g, d := wf, 0; g != nil && d < 4; d++ {
+				var nextG *ssa.Function
+				core.Instrs(g, func(in2 ssa.Instruction) {
+					c2, isCall := in2.(ssa.CallInstruction)
+					if !isCall {
+						return
+					}
+					if ev := r.M.LockEventOf(in2); ev != nil && ev.Acquire && blocked == "" {
+						blocked = "takes a lock at " + r.P.InstrPos(in2)
+					}
+					cal := core.Callee(c2)
+					if cal == nil || cal == mm.Core {
+						return
+					}
+					if c3, _ := coreCallOf(mm, cal, 0); c3 != nil {
+						nextG = cal
+						return
+					}
+					for e := range core.Blocking {
+						if why, has := r.E.Has(cal, e); has && blocked == "" {
+							blocked = "calls " + fn(cal) + " at " + r.P.InstrPos(in2) + " which can block (" + e + ": " + why + ")"
+						}
+					}
+				})
+				g = nextG
+			}
+			rep.Check(blocked == "", "C16.R3", fn(wf)+" blocks only inside the core", r.P.Pos(wf.Pos()), "the wrapper reaches the core's lock-free attempt without a blocking step of its own", "the get-or-create wrapper "+blocked+" before the compute core's lock-free lookup: its hit path can wait for a stalled writer or resize")
 		}
 	}
 	rep.MinCount("C16.R3", "load-if-exists specialisations", n, 2)
